@@ -170,6 +170,10 @@ def install_parse_override(prog):
             r = parse_program(ctx, text)
             if src_file.variant == 1:
                 r = set_file(prog, r, src_file)
+            sub = getattr(ctx, 'parse_subst', None)
+            if sub:
+                import symprog
+                r = symprog.subst(prog, r, **sub)       # harness-chosen literals of files read through the io stubs become symbolic
             return r
         return interp.exec_func(ctx, real, a)
     prog.overrides['parse'] = parse_override
